@@ -95,9 +95,14 @@ func main() {
 		"ensureChainConsistency": true, "AddBlockOnChain": true}
 	stores := map[string]bool{"hashDB": true, "heightDB": true, "verifyHashDB": true}
 	seqOf := map[string]bool{"insertBlock": true, "remove": true, "ensureChainConsistency": true, "updateTxPool": true,
-		"removeFromCommonAncestor": true, "updateLastBlock": true, "saveStates": true}
+		"removeFromCommonAncestor": true, "updateLastBlock": true, "saveStates": true, "triggerOnChain": true, "tryAddBlockOnChain": true}
 	seqs := map[string][]string{}
-	var callers, writers, caps [][2]string
+	var callers, writers, caps, flagReads, globalWrites [][2]string
+	onPath := map[string]bool{"AddBlockOnChain": true, "consensusVerify": true, "addBlockOnChain": true, "verifyBlock": true, "checkStates": true,
+		"insertBlock": true, "saveBlockByHash": true, "saveBlockByHeight": true, "saveStates": true, "updateVerifyHash": true,
+		"updateTxPool": true, "updateLastBlock": true, "successOnChainCallBack": true, "removeFromCommonAncestor": true, "remove": true,
+		"ensureChainConsistency": true, "markAddBlock": true, "eraseAddBlockMark": true, "markRemoveBlock": true, "eraseRemoveBlockMark": true,
+		"hasPreBlock": true, "missTransaction": true, "validateGroupSig": true, "queryBlockByHash": true, "QueryBlockHeaderByHeight": true}
 	for _, af := range parsed {
 		for _, d := range af.Decls {
 			fd, ok := d.(*ast.FuncDecl)
@@ -169,6 +174,40 @@ func main() {
 					return true
 				})
 			}
+			if recvT == "blockChain" && onPath[fd.Name.Name] {
+				// fork-configuration reads and writes of package-level state on the property's path
+				ast.Inspect(fd.Body, func(n ast.Node) bool {
+					switch x := n.(type) {
+					case *ast.CallExpr:
+						if sel, ok := x.Fun.(*ast.SelectorExpr); ok {
+							if id, ok := sel.X.(*ast.Ident); ok && id.Name == "common" && strings.HasPrefix(sel.Sel.Name, "IsProposal") {
+								flagReads = append(flagReads, [2]string{fd.Name.Name, sel.Sel.Name})
+							}
+						}
+					case *ast.AssignStmt:
+						for _, l := range x.Lhs {
+							root := l
+							for {
+								if se, ok := root.(*ast.SelectorExpr); ok {
+									root = se.X
+								} else if ie, ok := root.(*ast.IndexExpr); ok {
+									root = ie.X
+								} else {
+									break
+								}
+							}
+							if id, ok := root.(*ast.Ident); ok {
+								if _, isGlobal := globals[id.Name]; isGlobal || id.Name == "common" || id.Name == "middleware" {
+									if _, local := e[id.Name]; !local || isGlobal {
+										globalWrites = append(globalWrites, [2]string{fd.Name.Name, render(fset, l)})
+									}
+								}
+							}
+						}
+					}
+					return true
+				})
+			}
 			wantSeq := recvT == "blockChain" && seqOf[fd.Name.Name]
 			ast.Inspect(fd.Body, func(n ast.Node) bool {
 				call, ok := n.(*ast.CallExpr)
@@ -189,6 +228,10 @@ func main() {
 						callers = append(callers, [2]string{t + "." + sel.Sel.Name, fname})
 					}
 					if wantSeq && id.Name == recvN {
+						seqs[fd.Name.Name] = append(seqs[fd.Name.Name], sel.Sel.Name)
+					}
+					// the sync fork switch drives the chain through a parameter / the package singleton
+					if (fd.Name.Name == "triggerOnChain" || fd.Name.Name == "tryAddBlockOnChain") && t == "blockChain" {
 						seqs[fd.Name.Name] = append(seqs[fd.Name.Name], sel.Sel.Name)
 					}
 				}
@@ -224,7 +267,7 @@ func main() {
 	}
 	sort.Strings(names)
 	for _, k := range names {
-		out.WriteString("/-- calls through the receiver in `blockChain." + k + "`, in source order -/\n")
+		out.WriteString("/-- calls on the chain in `" + k + "`, in source order -/\n")
 		out.WriteString("def " + k + "Calls : List String := [\n")
 		for i, c := range seqs[k] {
 			sep := ","
@@ -248,6 +291,9 @@ func main() {
 	}
 	pairs("callers", "(callee, calling function) for every call of a block-adding / block-removing blockChain method in package core", callers)
 	pairs("cacheCaps", "(cache field, capacity) from the lru.New calls of initBlockChain (topBlocksCacheSize = 100)", caps)
+	sort.Slice(flagReads, func(i, j int) bool { return flagReads[i][0]+flagReads[i][1] < flagReads[j][0]+flagReads[j][1] })
+	pairs("flagReads", "(function, common.IsProposalNNN) for every fork-configuration read in the blockChain functions on the add/remove/repair path", flagReads)
+	pairs("globalWrites", "(function, assigned expression) for every assignment to package-level state in those functions", globalWrites)
 	pairs("writers", "(store.op, function) for every direct write of an index store of blockChain", writers)
 	out.WriteString("end Rangers.Generated.C05Facts\n")
 	fmt.Print(out.String())
